@@ -101,13 +101,8 @@ theorem exp_entry (env : Env K) (hE : IsExp env.E) (c a : K) (ha : a ≠ 0) :
     lcapyTerm env (.prod c [.exp a]) = (.exp, some (c / (env.s - a))) ∧
     specValue env (.prod c [.exp a]) = some (c / (env.s - a)) := exp_entry' env hE c a ha
 
-/-- the `sin_cos` fast path: `c·e^{αt}·sin/cos(ωt+φ)·u(t−τ)`, any phase, damping and delay (a negative
-    `τ` is clipped to 0 on both sides), is the stated combination of the two conjugate exponentials
-    `e^{(α ± jω)t}`. -/
-theorem sin_cos_entry (env : Env K) (hE : IsExp env.E) (hJ : env.J * env.J = -1) (c al w ph tau : K) (isCos : Bool)
-    (h1 : env.s - al - env.J * w ≠ 0) (h2 : env.s - al + env.J * w ≠ 0) :
-    specValue env (.prod c [.exp al, .trig isCos w ph, .step 1 (-tau)])
-      = some (c * sinCosFormula env al isCos w ph tau) := sin_cos_entry' env hE hJ c al w ph tau isCos h1 h2
+-- (`sin_cos_entry`, the sin_cos fast path, is stated after this section over ANY field with an imaginary unit: an ordered
+-- field has none, so a statement inside this section would be vacuous)
 
 /-- The table of `LaplaceTransformer.function` (GENERATED from the source text on every run): each entry is
     the transform of the unit function composed with `t ↦ a t`, `a > 0`.  (`spec_*`: the signal denoted by
@@ -336,9 +331,10 @@ example : InROC ([Atom.tpow 2, Atom.exp (-1)].foldl (applySmooth Complex.exp Com
   simp [applySmooth, iter, tmul, Term.tmul, expWeight, Term.expWeight] at hx
   rcases hx with rfl | rfl | rfl | rfl <;> simp
 
-/-- `sin_cos_entry` over ANY field with an imaginary unit (an ordered field has none: the version above is stated for the
-    driver's ordered stand-in only); the only fact about `≤` that is used is `0 ≤ 1` -/
-theorem sin_cos_entry_any_field {K : Type} [Field K] [LE K] [DecidableLE K] [DecidableEq K]
+/-- the `sin_cos` fast path: `c·e^{αt}·sin/cos(ωt+φ)·u(t−τ)`, any phase, damping and delay (a negative `τ` is clipped to 0 on both
+    sides), is the stated combination of the two conjugate exponentials `e^{(α ± jω)t}` — over ANY field with an imaginary unit `J`
+    (ℂ, the driver's Gaussian rationals); the only fact about `≤` that is used is `0 ≤ 1` -/
+theorem sin_cos_entry {K : Type} [Field K] [LE K] [DecidableLE K] [DecidableEq K]
     (env : Env K) (hE : IsExp env.E) (hJ : env.J * env.J = -1) (h01 : (0 : K) ≤ 1) (h20 : (2 : K) ≠ 0)
     (c al w ph tau : K) (isCos : Bool) (h1 : env.s - al - env.J * w ≠ 0) (h2 : env.s - al + env.J * w ≠ 0) :
     specValue env (.prod c [.exp al, .trig isCos w ph, .step 1 (-tau)]) = some (c * sinCosFormula env al isCos w ph tau) :=
